@@ -310,12 +310,25 @@ func vtkTick(t core.SuDate) {
 // backwards; this is the step VerifC34Ts replays as its event 0), and the values handed out
 // are pairwise different and strictly increasing.
 //
-//symgo:harness prop=C34 tier=quick shards=4 tshards=8 timeout=300 ttimeout=1700 preempt=0 tpreempt=1 replay=off havoc=(github.com/apmckinlay/gsuneido/core.SuDate).MinusMs summary=core.Now=vsumNow summary=(github.com/apmckinlay/gsuneido/core.SuDate).Plus=vsumPlus bounds=scripts_of_3_(thorough_5)_events_from_{the_real_ticker_goroutine_reads_an_arbitrary_clock_second_of_the_same_day,direct_request};server_timestamp_starts_at_any_time_of_day_and_millisecond;the_ticker_runs_between_the_harness's_events_(thorough:_also_1_pre-emption) outside=clock_readings_on_another_day;the_time-skip_log_message_(SuDate.MinusMs,_used_only_for_it,_returns_an_arbitrary_value:_both_log_branches_are_run);SuDate.Plus_by_its_contract_as_in_VerifC34Ts;no_native_replay_(the_clock_and_the_schedule_cannot_be_forced_natively)
+//symgo:harness prop=C34 tier=quick shards=4 tshards=8 timeout=300 ttimeout=1700 preempt=0 replay=off havoc=(github.com/apmckinlay/gsuneido/core.SuDate).MinusMs summary=core.Now=vsumNow summary=(github.com/apmckinlay/gsuneido/core.SuDate).Plus=vsumPlus bounds=scripts_of_3_(thorough_5)_events_from_{the_real_ticker_goroutine_reads_an_arbitrary_clock_second_of_the_same_day,direct_request};server_timestamp_starts_at_any_time_of_day_and_millisecond;the_ticker_runs_only_while_the_harness_waits_for_it_(1_pre-emption:_VerifC34TickerPreempt) outside=clock_readings_on_another_day;the_time-skip_log_message_(SuDate.MinusMs,_used_only_for_it,_returns_an_arbitrary_value:_both_log_branches_are_run);SuDate.Plus_by_its_contract_as_in_VerifC34Ts;no_native_replay_(the_clock_and_the_schedule_cannot_be_forced_natively)
 func VerifC34Ticker() {
-	nev := 3
 	if rt.Thorough() {
-		nev = 5
+		vticker(5)
+	} else {
+		vticker(3)
 	}
+}
+
+// C34, thorough only: as VerifC34Ticker (3 events) where the scheduler may also pre-empt once:
+// the ticker can be suspended anywhere between its operations on the lock while requests are
+// served, or run on while the harness is between two events.
+//
+//symgo:harness prop=C34 tier=thorough shards=8 tshards=8 timeout=1700 ttimeout=1700 preempt=1 replay=off havoc=(github.com/apmckinlay/gsuneido/core.SuDate).MinusMs summary=core.Now=vsumNow summary=(github.com/apmckinlay/gsuneido/core.SuDate).Plus=vsumPlus bounds=as_VerifC34Ticker_with_scripts_of_3_events_and_<=1_pre-emptive_switch_at_any_lock/unlock/Sleep/Wait/Broadcast outside=as_VerifC34Ticker;more_pre-emptions
+func VerifC34TickerPreempt() {
+	vticker(3)
+}
+
+func vticker(nev int) {
 	day := vtsDays[0][0]
 	ms := uint32(rt.Choice("ms0", 1000))
 	timestamp = core.TsVerifMkDate(day, vtsTime("t0")|ms)
